@@ -74,6 +74,7 @@ def run(repo, chk):
     rule_c(repo, chk)
     rule_d(repo, chk, d, t, e)
     rule_e(chk, e)
+    rule_dispatch_pending(repo, chk, d)
     rule_f(chk, d, t)
     rule_g(repo, chk)
     rule_h(repo, chk, d)
@@ -351,6 +352,30 @@ def rule_e(chk, e):
            path=pat.path_lines(p) if p else None, discr='walk-reached')
 
 
+def rule_dispatch_pending(repo, chk, d):
+    """The gate of rule e ("no handler of the event is suspended") is a counter.  While the dispatcher is still running the handlers of the event, the counter must
+    not be able to reach zero through a generator handler that is finished by a nested tick()/flush() of one of those handlers: the dispatch itself is counted."""
+    from .common import dispatcher_loop
+    loop, _v, sites, _helper = dispatcher_loop(repo, d)
+    g = d.cfg()
+    ev = d.params[1]
+    inc = [n for n in g.nodes if n.kind == 'stmt' and isinstance(n.ast, ast.AugAssign) and src(n.ast.target) == f'{ev}.waitingHandlers' and isinstance(n.ast.op, ast.Add)
+           and pat.is_const(n.ast.value, 1) and not any(k == 'loop' for k, _a in n.ctx)]
+    dec = [n for n in g.nodes if n.kind == 'stmt' and isinstance(n.ast, ast.AugAssign) and src(n.ast.target) == f'{ev}.waitingHandlers' and isinstance(n.ast.op, ast.Sub)
+           and pat.is_const(n.ast.value, 1) and not any(k == 'loop' for k, _a in n.ctx)]
+    dones = [n for n in g.nodes if n.kind == 'stmt' and any(r == 'self' for r, _c in pat.method_calls(n.ast, '_eventDone'))]
+    ok = bool(inc) and bool(dec)
+    p = None
+    for s_ in sites:
+        p = p or Q.reachable_without(g, s_, avoid_node=lambda n: n in inc, weak=True)
+    for dn in dones:
+        p = p or Q.reachable_without(g, dn, start=loop, avoid_node=lambda n: n in dec)
+    late = any(Q.reaches(dc, s_) for dc in dec for s_ in sites)
+    chk.ob('e', d.ref, 'while the handlers of an event are being run the dispatch itself is counted as a pending handler (raised before the first handler, lowered after the '
+                       'last, before the event is reported done): a generator handler finished by a nested tick() cannot make the event done early', ok and p is None and not late,
+           loc(d, (inc or dec or [loop])[0].ast), path=pat.path_lines(p) if p else None, discr='dispatch-counts-as-pending')
+
+
 def rule_f(chk, d, t):
     # dispatcher
     g = d.cfg()
@@ -444,6 +469,22 @@ def rule_g(repo, chk):
             p = Q.escapes(g, [n], lambda m: m in apps)
             ok = ok and p is None
     chk.ob('g', f.ref, 'the second result turns the stored value into a list [first, second]', ok, loc(f, f.node), discr='second-makes-list')
+    # "several results stored" is a fact of its own: it cannot be read off the type of the stored value (one result may itself be a list), and results are never
+    # appended into an object a handler supplied
+    type_tests = [n for n in g.nodes if n.kind == 'test' and isinstance(n.ast, ast.Call) and call_name(n.ast) == 'isinstance' and src(n.ast.args[0]) == 'self._value'
+                  and any(e.kind == 'T' and (e.dst in apps or Q.reaches(e.dst, a_) ) for e in n.succ for a_ in apps)]
+    flag = None
+    for n in wrap:
+        for m in g.nodes:
+            if m.kind == 'stmt' and isinstance(m.ast, ast.Assign) and pat.is_const(m.ast.value, True) and isinstance(m.ast.targets[0], ast.Attribute) and src(m.ast.targets[0].value) == 'self' \
+                    and m.ast.targets[0].attr not in ('result', 'errors') and (Q.reaches(n, m) or Q.reaches(m, n)):
+                flag = m.ast.targets[0].attr
+    flag_T = pat.test_edge(lambda tt, pol: pol == 'T' and flag is not None and src(tt) == f'self.{flag}')
+    # (an append right after `self._value = [self._value]` goes into the list just made)
+    later = [n for n in apps if Q.reachable_without(g, n, avoid_node=lambda m: m in wrap) is not None]
+    okf = not type_tests and flag is not None and all(pat.guarded_by(g, n, flag_T) is None for n in later)
+    chk.ob('g', f.ref, 'results are appended only to the list this Value made itself (recorded by a flag of its own), never to a stored value that merely is a list', okf,
+           loc(f, (type_tests or apps or [g.entry])[0].ast if (type_tests or apps) else f.node), detail=f'flag: {flag}', discr='own-list-only')
     # every path stores the value somewhere
     wrap_both = [n for n in wrap if v in Q.names_used(n.ast.value)]       # `[self._value, value]` stores the new result itself
     p = Q.escapes(g, [g.entry], lambda n: n in first or n in apps or n in wrap_both)
@@ -469,6 +510,18 @@ def rule_g(repo, chk):
         edges = [e for n in gu.nodes if n.kind == 'test' for e in n.succ if pat.fact_matches(pat.compare_fact(n.ast, e.kind), vv, ('is not', '!='), 'None')]
         okr = okr and bool(edges) and all(e.dst in res or Q.escapes(gu, [e.dst], lambda n: n in res) is None for e in edges)
         chk.ob('g', upd.ref, 'a non-None plain result marks the value as having a result (None does not)', okr, loc(upd, upd.node), discr='result-flag')
+        # flags only ever accumulate: a nested Value (or the parent propagation) must not replace what other handlers of the event have contributed
+        plain = []
+        for n in gu.nodes:
+            if n.kind == 'stmt' and isinstance(n.ast, ast.Assign):
+                for r_, a_, v_ in pat.attr_store(n.ast):
+                    if a_ in ('errors', 'result') and not pat.is_const(v_, True):
+                        own = f'{r_}.{a_}'
+                        keeps = isinstance(v_, ast.BoolOp) and isinstance(v_.op, ast.Or) and any(src(x) == own for x in v_.values)
+                        if not keeps:
+                            plain.append(n)
+        chk.ob('g', upd.ref, 'the errors / result flags are only ever raised: an assignment from another Value keeps what is set already (`x.errors = x.errors or …`)', not plain,
+               loc(upd, plain[0].ast) if plain else loc(upd, upd.node), detail='; '.join(src(n.ast)[:50] for n in plain[:3]), discr='flags-accumulate')
         par = [n for n in gu.nodes if n.kind == 'stmt' and any(r == f'{o}.parent' or pat.expand_alias(fn, n, r) .endswith('.parent') for r in pat.stores_attr(n.ast, 'errors'))]
         chk.ob('g', upd.ref, 'flags are propagated to the parent value', bool(par), loc(upd, upd.node), discr='parent-flags', nontrivial=False)
 
